@@ -92,20 +92,53 @@ fn unnamed_cycle(ts: &TypeSpace) -> bool {
     false
 }
 
+/// Projection of the identifier-allocation state and the de-duplication indexes (hook
+/// verif_snapshot) for the implementation model spec/TypeSpaceImpl.tla: one "ts" event per call.
+fn ts_state(ts: &TypeSpace) -> Value {
+    let snap = ts.verif_snapshot();
+    let named = ["struct", "enum", "newtype"];
+    let ents: Vec<Value> = snap["entries"]
+        .as_array()
+        .unwrap()
+        .iter()
+        .map(|e| {
+            let kind = e["kind"].as_str().unwrap_or("");
+            let mut to: Vec<u64> = e["edges"].as_array().unwrap().iter().filter_map(|x| x["to"].as_u64()).collect();
+            to.sort();
+            to.dedup();
+            json!({"id": e["id"], "named": named.contains(&kind), "kind": kind, "name": e["name"], "to": to})
+        })
+        .collect();
+    json!({"next_id": snap["next_id"], "ents": ents, "names": snap["name_to_id"], "refs": snap["ref_to_id"]})
+}
+
 pub fn run(cases: &str, events: &str) {
     let cases = read_cases(cases);
     let mut out = Out::new(events);
+    let mut tsout = Out::new(&format!("{}.ts", events));
     for (i, case) in cases.iter().enumerate() {
         let calls = case["calls"].as_array().cloned().unwrap_or_default();
         let mut ts = TypeSpace::default();
         let mut roots: Vec<TypeId> = Vec::new();
         out.ev(json!({"ev": "begin", "case": i + 1}));
+        tsout.ev(json!({"ev": "ts_begin", "case": i + 1}));
         let mut last_defs: Vec<Value> = vec![];
         let mut last_rres = "ok".to_string();
         for (k, call) in calls.iter().enumerate() {
             let (res, raw, id) = doc::do_call(&mut ts, call);
             if let Some(id) = id {
                 roots.push(id);
+            }
+            {
+                let mut e = ts_state(&ts);
+                e["ev"] = json!("ts");
+                e["case"] = json!(i + 1);
+                e["seq"] = json!(k + 1);
+                e["res"] = json!(res);
+                e["id"] = json!(raw);
+                e["tpl"] = case["hist"][k].clone();
+                e["defkeys"] = json!(def_keys(call));
+                tsout.ev(e);
             }
             if unnamed_cycle(&ts) {
                 // nothing promised so far can still be described: report and stop this history
